@@ -196,7 +196,7 @@ fn seq_spec(ctx: &Ctx, shards: usize) -> SeqSpec {
 }
 
 // ---------------------------------------------------------------------------------------------- ilv
-fn ilv_oracle() -> Oracle {
+pub fn ilv_oracle() -> Oracle {
     Arc::new(|run: &Run, out: &mut Vec<crate::harness::ilv::Finding>| {
         use crate::harness::ilv::Finding;
         // thread 0 is sequential: [.., upsert(k, value..), read(k)] -> the read must already see the value
@@ -240,6 +240,50 @@ fn ilv_oracle() -> Oracle {
                 if let (Some((w, desc)), false, Some(e)) = (last_w, later_implicit, run.obs_end.entry(k)) {
                     if run.obs_end.weight_of_id(e.2) != Some(w) {
                         out.push(Finding::new("explicit-weight-not-charged", "upsert:explicit-weight-not-charged", format!("{} was acknowledged Accepted and is the last weight request for key {}, but {:?} is charged", desc, k, run.obs_end.weight_of_id(e.2))));
+                    }
+                }
+            }
+        }
+        // value and explicit weight of one request travel together: if the key ends with the value written by a call
+        // that also requested a weight, that weight is charged - unless a weight request that began after that call
+        // returned exists (every sequential order of the calls gives the pair; a torn pair means the request was
+        // applied to two different incarnations of the key)
+        if let Some(e) = run.obs_end.entry(1) {
+            if let Some(u) = run.calls.iter().find(|c| c.thread < PHASE_INIT && c.value == Some(e.1)) {
+                let req_w = match &u.op {
+                    Op::Upsert { w: Some(w), value: true, .. } => Some(*w),
+                    Op::Put { w: Some(w), ttl_ms: None, .. } => Some(*w),
+                    _ => None,
+                };
+                let later_weight_request = run.calls.iter().any(|c| c.thread < PHASE_INIT && c.op.key() == Some(1) && c.inv > u.ret && matches!(&c.op, Op::Upsert { w: Some(_), .. } | Op::Upsert { ttl_ms: Some(_), .. } | Op::Upsert { remove_ttl: true, .. }));
+                if let (Some(w), false, Some(CommandStatus::Accepted)) = (req_w, later_weight_request, run.status_of(u.thread, u.idx)) {
+                    if run.obs_end.weight_of_id(e.2) != Some(w) {
+                        out.push(Finding::new("value-and-weight-torn", "upsert:value-of-one-request-weight-of-another", format!("key 1 ends with the value written by {} (Accepted, weight {} requested) but is charged {:?}", u.short(), w, run.obs_end.weight_of_id(e.2))));
+                    }
+                }
+            }
+        }
+        // the time-to-live: when exactly one client thread issues TTL-carrying requests for key 1 (puts with a TTL, upserts
+        // with a TTL or removing it) and nobody deletes the key, the last of them that was accepted fixes the deadline
+        // (the harness clock does not move inside these windows)
+        if !run.program.moves_clock_in_window() && !run.calls.iter().any(|c| c.thread < PHASE_INIT && matches!(c.op, Op::Delete { k: 1 })) {
+            let ttl_calls: Vec<&Call> = {
+                let mut v: Vec<&Call> = run.calls.iter().filter(|c| c.thread < PHASE_INIT && c.op.key() == Some(1) && matches!(&c.op, Op::Put { ttl_ms: Some(_), .. } | Op::Upsert { ttl_ms: Some(_), .. } | Op::Upsert { remove_ttl: true, .. })).collect();
+                v.sort_by_key(|c| c.inv);
+                v
+            };
+            let one_thread = ttl_calls.iter().all(|c| c.thread == ttl_calls[0].thread);
+            let plain_puts = run.calls.iter().any(|c| c.thread < PHASE_INIT && matches!(&c.op, Op::Put { k: 1, ttl_ms: None, .. }));
+            if !ttl_calls.is_empty() && one_thread && !plain_puts {
+                if let Some(last) = ttl_calls.iter().rev().find(|c| run.status_of(c.thread, c.idx) == Some(CommandStatus::Accepted)) {
+                    let want = match &last.op {
+                        Op::Put { ttl_ms: Some(t), .. } | Op::Upsert { ttl_ms: Some(t), .. } => Some(last.now_ms_inv + t),
+                        _ => None,
+                    };
+                    if let Some(e) = run.obs_end.entry(1) {
+                        if e.3 != want {
+                            out.push(Finding::new("ttl-request-lost", "upsert:last-accepted-ttl-request-not-in-force", format!("{} is the last accepted time-to-live request for key 1 (deadline {:?}) but the key ends with expiry {:?}", last.short(), want.map(|x| x - T0_MS), e.3.map(|x| x - T0_MS))));
+                        }
                     }
                 }
             }
@@ -290,6 +334,12 @@ fn ilv_programs() -> Vec<Program> {
     v.push(mk("delete;upsert(v,w,ttl)  [worker running]", vec![put(1, 30)], vec![vec![del(1), ups(true, Some(40), Some(5000), false)]], false));
     v.push(mk("upsert(w=40);upsert(w=30 = the initial weight) unawaited", vec![put(1, 30)], vec![vec![ups(true, Some(40), None, false), ups(true, Some(30), None, false)]], false));
     v.push(mk("upsert(w=40);upsert(w=40);upsert(w=35) unawaited || get", vec![put(1, 30)], vec![vec![ups(false, Some(40), None, false), ups(false, Some(40), None, false), ups(false, Some(35), None, false)], vec![get(1)]], false));
+    // a value+weight upsert overlapping a delete and re-put of the key by another client
+    v.push(mk("upsert(v,w=50) || delete;await;put(w=10);await", vec![put(1, 30)], vec![vec![ups(true, Some(50), None, false)], vec![del(1), Op::Await { call: 0 }, put(1, 10), Op::Await { call: 2 }]], false));
+    // TTL requests of one client while another client / the worker touches the same entry
+    v.push(mk("upsert(ttl 500ms) || upsert(v)", vec![put_ttl(1, 30, 5000)], vec![vec![ups(false, None, Some(500), false)], vec![ups(true, None, None, false)]], false));
+    v.push(mk("upsert(remove ttl,w) || upsert(v);upsert(v)", vec![put_ttl(1, 30, 5000)], vec![vec![ups(false, Some(30), None, true)], vec![ups(true, None, None, false), ups(true, None, None, false)]], false));
+    v.push(mk("put_ttl(1h) unawaited;upsert(ttl 10s)", vec![], vec![vec![Op::Put { k: 1, w: Some(30), ttl_ms: Some(3_600_000) }, ups(true, Some(30), Some(10_000), false)]], false));
     v.push(mk("upsert(v) || get;get", vec![put(1, 30)], vec![vec![ups(true, None, None, false), get(1)], vec![get(1), get(1)]], false));
     v
 }
